@@ -38,7 +38,11 @@ PROPS = {
     'C05': {
         'title': 'Reflection metadata agrees with the emitted source',
         'v_units': ['hlsl_bindings', 'hlsl_analyse', 'msl_analyse'],
-        'k_groups': [],
+        # PipelineBindingLayout::finish (iterator adapters): reflected bind groups stay positional (5 min, 10 GB)
+        'k_groups': [{'module': 'msl/pipeline.rs',
+                      'harnesses': [('c05_msl_finish_keeps_bind_groups_positional_bounded', 'bounded:3 argument buffers of 0..2 entries')],
+                      'kani_args': ['--no-assertion-reach-checks'],
+                      'tier': 'quick'}],
         'design_ref': 'DESIGN.md Part I, I.4 (C05)',
     },
     'C06': {
